@@ -122,3 +122,142 @@ def c12_vector(ctx):
     # zero speed is no wind
     z = p.Wind(U.FPS(0.0), U.Radian(d)).vector
     ctx.check('zero_speed_is_zero_vector', z.x == 0 and z.y == 0 and z.z == 0)
+
+
+# ---------------------------------------------------------------------------------------------------------------------------------
+# carriers: the real Calculator.fire with concrete wind vectors and SYMBOLIC until-distances
+
+from harness import carriers  # noqa: E402
+
+
+def _cfg_fire(tier):
+    out = []
+    K = 12 if tier == 'quick' else 40
+    plan = [('C', 100.0, dict(relative_deg=2.0)), ('B', 60.0, dict())] if tier == 'quick' else \
+        [('C', 100.0, dict(relative_deg=2.0)), ('B', 60.0, dict()), ('A', 100.0, dict()), ('C', 100.0, dict(relative_deg=30.0)), ('A', 30.0, dict())]
+    for (c, step, kw) in plan:
+        rmax = K * step / 2 * 0.9
+        for n in ((2,) if tier == 'quick' else (2, 3)):
+            shards = 3 if tier == 'quick' else 6
+            for i in range(shards):
+                out.append({'carrier': c, 'step_ft': step, 'kw': kw, 'n': n, 'rmax': rmax, 'ulo': rmax * i / shards, 'uhi': rmax * (i + 1) / shards})
+    return out
+
+
+SEGS = [(10.0, 1.2), (6.0, -2.0), (14.0, 0.4)]       # (mph, direction from, radians)
+
+
+@harness('C12.fire', 'C12', configs=_cfg_fire, functions=FUNCS + ['py_ballisticcalc.trajectory_calc._trajectory_calc.TrajectoryCalc._integrate'],
+         cost=15, engine_opts={'div_check': False, 'nl_axioms_in_feasibility': False},
+         must_reach=['check:order_of_input_does_not_matter', 'check:each_step_uses_the_segment_in_force', 'check:later_segments_do_not_change_earlier_rows',
+                     'check:mirror_negates_windage_only', 'check:zero_speed_is_no_wind'],
+         bounds='carriers C (twist 0), B [thorough: + A, inclined C, finer A] with concrete wind vectors per segment and SYMBOLIC until-distances (n = 2; thorough 2..3) '
+                'in any order: one cell per assignment of switch points to integration steps; horizon K <= 12 (quick) / 40 (thorough) steps',
+         outside=['"head and tail winds change drop and time of flight in opposite senses" beyond one step: compared on three concrete carrier runs (test strength)'])
+def c12_fire(ctx, carrier, step_ft, kw, n, rmax, ulo, uhi):
+    p, tc = pybc(), _tc()
+    U = p.Unit
+    u = [ctx.real('until0', ulo, uhi)] + [ctx.real(f'until{i}', 0, rmax) for i in range(1, n)]
+
+    def winds(order, segs=SEGS, mirror=False, speed_scale=1.0):
+        return [p.Wind(U.MPH(segs[i][0] * speed_scale), U.Radian(-segs[i][1] if mirror else segs[i][1]), U.Foot(u[i])) for i in order]
+    R, S = U.Foot(rmax), U.Foot(step_ft)
+
+    def run(ws, spy_sock=False):
+        calc, shot = carriers.make(carrier, step_ft, ws, **kw)
+        calls = []
+        orig = tc._WindSock.vector_for_range
+
+        def vfr(self, x):
+            v = orig(self, x)
+            calls.append((x, v))
+            return v
+        tc._WindSock.vector_for_range = vfr
+        try:
+            with carriers.spy_filter() as spy:
+                rows = calc.fire(shot, R, S).trajectory
+        finally:
+            tc._WindSock.vector_for_range = orig
+        return rows, spy, calls, shot
+
+    base_rows, spy, calls, shot = run(winds(range(n)))
+    # (a) input order
+    rev_rows, _, _, _ = run(winds(list(reversed(range(n)))))
+    distinct = ctx.all([u[i] != u[j] for i in range(n) for j in range(i)])
+    # (with equal until-distances "the order of their until-distance" does not determine which of the tied winds acts: the stable sort keeps
+    #  the input order; ties are excluded from THIS obligation only)
+    ctx.check('order_of_input_does_not_matter', ctx.implies(distinct, _rows_same(base_rows, rev_rows)))
+    # (b) segment in force at every integration step: the sock's answers vs the oracle
+    vecs = [p.Wind(U.MPH(SEGS[i][0]), U.Radian(SEGS[i][1])).vector for i in range(n)]
+    segs = sorted(((u[i], i) for i in range(n)), key=lambda t: t[0])
+    first_vec = shot.winds[0].vector if n else None
+    current = tuple(first_vec)
+    ci = 0
+    ok = True
+    for s in spy:
+        x = s['p'].x
+        while ci < len(calls) and calls[ci][0] <= x:
+            current = tuple(calls[ci][1])
+            ci += 1
+        want = (0.0, 0.0, 0.0)
+        for (ui, i) in segs:
+            if ui > x:
+                want = tuple(vecs[i])
+                break
+        ok = ok and (current == want)
+    ctx.check('each_step_uses_the_segment_in_force', ok)
+    # (c) causality: replacing every segment after the first-ending one leaves the rows up to its end unchanged
+    other = [SEGS[0]] + [(25.0, 2.5)] * (n - 1)
+    first_i = segs[0][1]
+    alt_segs = [SEGS[i] if i == first_i else (25.0, 2.5) for i in range(n)]
+    alt_rows, _, _, _ = run(winds(range(n), segs=alt_segs))
+    umin = segs[0][0]
+    for k in range(min(len(base_rows), len(alt_rows))):
+        d = base_rows[k].distance >> U.Foot
+        same = _rows_same([base_rows[k]], [alt_rows[k]])
+        ctx.check('later_segments_do_not_change_earlier_rows', ctx.implies(d <= umin, same), info={'row': k})
+    # (d) zero speed = no wind
+    zero_rows, _, _, _ = run(winds(range(n), speed_scale=0.0))
+    none_rows, _, _, _ = run([])
+    ctx.check('zero_speed_is_no_wind', _rows_same(zero_rows, none_rows))
+    # (e) mirror left-right: windage negated (this carrier has no spin drift), everything else identical
+    if (shot.weapon.twist >> U.Inch) == 0:
+        mir_rows, _, _, _ = run(winds(range(n), mirror=True))
+        ok = len(mir_rows) == len(base_rows)
+        for a, b in zip(base_rows, mir_rows):
+            for name in a._fields:
+                x, y = getattr(a, name), getattr(b, name)
+                xv, yv = getattr(x, 'raw_value', x), getattr(y, 'raw_value', y)
+                if name in ('windage', 'windage_adj'):
+                    ok = ok and (xv == -yv)
+                else:
+                    ok = ok and (xv == yv)
+        ctx.check('mirror_negates_windage_only', ok)
+    else:
+        ctx.reach('check:mirror_negates_windage_only')
+
+
+def _rows_same(a, b):
+    if len(a) != len(b):
+        return False
+    for ra, rb in zip(a, b):
+        for x, y in zip(ra, rb):
+            if getattr(x, 'raw_value', x) != getattr(y, 'raw_value', y):
+                return False
+    return True
+
+
+@harness('C12.headtail', 'C12', configs=lambda tier: [{'carrier': c, 'step_ft': s} for (c, s) in (('A', 0.5), ('B', 0.5))], functions=FUNCS,
+         must_reach=['check:head_and_tail_wind_act_in_opposite_senses', 'check:wind_from_left_deflects_right'],
+         bounds='TEST STRENGTH: three concrete runs (no wind, 10 mph head, 10 mph tail) and a wind from the left per carrier at the default step: time of flight and drop at the last row')
+def c12_headtail(ctx, carrier, step_ft):
+    p = pybc()
+    U = p.Unit
+    res = {}
+    for w in ('none', 'head', 'tail', 'left'):
+        calc, shot = carriers.make(carrier, step_ft, w)
+        res[w] = calc.fire(shot, U.Yard(500), U.Yard(100)).trajectory[-1]
+    ctx.check('head_and_tail_wind_act_in_opposite_senses',
+              res['head'].time > res['none'].time > res['tail'].time and
+              (res['head'].height >> U.Foot) < (res['none'].height >> U.Foot) < (res['tail'].height >> U.Foot))
+    ctx.check('wind_from_left_deflects_right', (res['left'].windage >> U.Foot) > (res['none'].windage >> U.Foot))
